@@ -399,7 +399,9 @@ func (s *seqRun) add(b *backend, clause, class, format string, a ...any) {
 	s.res.Stat("violations_"+b.name, 1)
 }
 
-func keyShape(c call) string { return "name-shape=" + strings.TrimSuffix(nameShape(c.Name), "+53chars") }
+func keyShape(c call) string {
+	return "name-shape=" + strings.TrimSuffix(nameShape(c.Name), "+53chars")
+}
 
 // compareSet judges a multi-result call.
 func (s *seqRun) compareSet(b *backend, c call, what string, want map[rkey]*release.Release, got []*release.Release, err error) {
